@@ -19,11 +19,11 @@ CHECKS = {
    "deterministic simulation: seeded op-history search vs reference model", "5/C02"),
 
  "C08": ("rig", "exploration",
-   "Every registered library block (53 adapters) is run twice on real streams from one seed: one-shot delivery with ample space, and a seeded drip-feed schedule on 1-3 page streams pre-rolled to seeded wrap offsets (feed 1..k, drain 0..j, outputs held full, input larger than output space). Outputs must be bit-identical (NaNs canonicalised), and neither run may panic or fail.",
+   "Every registered library block (56 adapters) is run twice on real streams from one seed: one-shot delivery with ample space, and a seeded drip-feed schedule on 1-3 page streams pre-rolled to seeded wrap offsets (feed 1..k, drain 0..j, outputs held full, input larger than output space). Outputs must be bit-identical (NaNs canonicalised), and neither run may panic or fail.",
    "The harness is the block's only peer; constructor preconditions respected; sampling, not enumeration.",
    "deterministic simulation: seeded drip-feed schedules (environment faults: full outputs, tiny feeds, wrap offsets), A/B output identity", "5/C08"),
  "C09": ("rig", "exploration",
-   "Same environment; every work() call is audited: no live stream window or extra handle afterwards, a wait verdict without activity must name an unsatisfied stream and is probed by providing exactly what was asked for, idle 'Again' is probed by calling again with an unchanged environment (at most 4 in a row), and after the inputs are dropped (peer-gone fault) and drained the block must retire within 4 calls (EOF, eof(), or a true wait() on an ended input evaluated in virtual time).",
+   "Same environment; every work() call is audited: no live stream window or extra handle afterwards, a wait verdict without activity must name an unsatisfied stream (and not ask for more than a full stream can hold) and is probed by providing exactly what was asked for, idle 'Again' is probed by calling again with an unchanged environment (at most 4 in a row), and after the inputs are dropped (peer-gone fault) and drained the block must retire within 4 calls (EOF, eof(), or a true wait() on an ended input evaluated in virtual time).",
    "Verdicts after a call that moved data are treated as hints, not claims. Pending/WaitForFunc accepted as documented.",
    "deterministic simulation: seeded drip-feed schedules + peer-drop fault, per-call verdict oracle with virtual-time wait probes", "5/C09"),
  "C10": ("rig", "exploration",
